@@ -1119,22 +1119,25 @@ def r10_any_idioms(toks, stats):
     while changed:
         changed = False
         m = match_table(toks)
-        i = find_seq(toks, pat(".iter().any("))
-        if i >= 0:
-            start = chain_start(toks, m, i)
-            recv = [x.copy() for x in toks[start:i]]
-            k = i
-            while toks[k].s != "any": k += 1
-            fopen = k + 1; fclose = m[fopen]
-            new = T("vany_ref(&") + recv + T(",") + toks[fopen + 1:fclose] + T(")")
-            toks[start:fclose + 1] = new
-            stats["R10.vany_ref"] = stats.get("R10.vany_ref", 0) + 1
-            changed = True
-            continue
+        for kw in ("any", "all"):
+            i = find_seq(toks, pat(".iter().%s(" % kw))
+            if i >= 0:
+                start = chain_start(toks, m, i)
+                recv = [x.copy() for x in toks[start:i]]
+                k = i
+                while toks[k].s != kw: k += 1
+                fopen = k + 1; fclose = m[fopen]
+                new = T("v%s_ref(&" % kw) + recv + T(",") + toks[fopen + 1:fclose] + T(")")
+                toks[start:fclose + 1] = new
+                stats["R10.v%s_ref" % kw] = stats.get("R10.v%s_ref" % kw, 0) + 1
+                changed = True
+                break
+        if changed: continue
         for i, t in enumerate(toks):
-            if t.s == "." and i + 2 < len(toks) and toks[i + 1].s == "any" and toks[i + 2].s == "(":
-                toks[i + 1] = Tok("id", "vany", toks[i + 1].line, toks[i + 1].col, False)
-                stats["R10.vany"] = stats.get("R10.vany", 0) + 1
+            if t.s == "." and i + 2 < len(toks) and toks[i + 1].s in ("any", "all") and toks[i + 2].s == "(":
+                kw = toks[i + 1].s
+                toks[i + 1] = Tok("id", "v" + kw, toks[i + 1].line, toks[i + 1].col, False)
+                stats["R10.v" + kw] = stats.get("R10.v" + kw, 0) + 1
                 changed = True
                 break
     return toks
